@@ -551,9 +551,9 @@ def gen_cases(env):
         cases.append("trim %s" % hx((chr(cp) + "x" + chr(cp)).encode()))
     cases.append("ws 0 1114112")
     # to_number, Display -> to_number, case mapping of strings
-    for t in tonum_cases(rng, 4000 if quick else 130000):
+    for t in tonum_cases(rng, 3000 if quick else 130000):
         cases.append("tonum %s" % hx(t.encode()))
-    for _ in range(250 if quick else 15000):
+    for _ in range(200 if quick else 15000):
         b = random_double(rng) | (rng.getrandbits(1) << 63)
         cases.append("roundtrip %016x" % b)
     for b in (0, 1 << 63, 1, 2 ** 52 - 1, 2 ** 52, 0x7FEFFFFFFFFFFFFF, 0x7FF0000000000000, 0xFFF0000000000000, 0x7FF8000000000000,
@@ -579,6 +579,29 @@ def bisect_bad(env, part, release):
     return part[lo]
 
 
+def run_shard(env, name, part, release, cache, key, model=True):
+    """Implementation with a short timeout (a hang is a finding), extracted model with a long one (exact
+    integer arithmetic on ~1000-digit numerals is slow) and only once per shard: the release pass
+    reuses the model lines of the debug pass."""
+    inp = os.path.join(env.work, name + ".in")
+    open(inp, "w").write("\n".join(part) + "\n")
+    oi, om = os.path.join(env.work, name + ".impl"), os.path.join(env.work, name + ".model")
+    for p in (oi, om):
+        if os.path.exists(p):
+            os.remove(p)
+    rc1, o1 = common.sh([common.harness_bin(release), "strlib", inp, oi], timeout=180)
+    li = open(oi).read().splitlines() if rc1 == 0 and os.path.exists(oi) else None
+    err = ("impl rc=%s: %s" % (rc1, o1[-600:])) if rc1 else ""
+    if not model:
+        return li, None, err
+    if key not in cache:
+        rc2, o2 = common.sh([common.NSMODEL, "strlib", inp, om], timeout=14400)
+        cache[key] = open(om).read().splitlines() if rc2 == 0 and os.path.exists(om) else None
+        if rc2:
+            err += "model rc=%s: %s" % (rc2, o2[-600:])
+    return li, cache[key], err
+
+
 def correspond(env, searching=False, model=True):
     cases, exhaustive_find = gen_cases(env)
     corpus = os.path.join(common.VERIF, "gen", "corpus", "C13")
@@ -598,6 +621,7 @@ def correspond(env, searching=False, model=True):
     kinds = {}
     case_stats = {}
     caseref = None
+    model_cache = {}
     for release in profiles:
         caseref, cf, cd, case_stats = run_case_sweep(env, release, model)
         for f in cf:
@@ -611,7 +635,7 @@ def correspond(env, searching=False, model=True):
         shard = 40000
         for s0 in range(0, len(cases), shard):
             part = cases[s0:s0 + shard]
-            li, lm, err = common.run_both(env, "s%d_%d" % (int(release), s0), "strlib", "\n".join(part) + "\n", [], release, timeout=120)
+            li, lm, err = run_shard(env, "s%d_%d" % (int(release), s0), part, release, model_cache, s0, model)
             if li is None:
                 # the implementation died or hung on this shard: bisect to the case
                 bad = bisect_bad(env, part, release)
